@@ -151,8 +151,8 @@ def Sender.send (c : Cipher) (size : Nat) (s : Sender) (msg : Bytes) : Sender :=
   { s with nextId := iterSeq ws.length s.nextId, encPos := s.encPos + wiresLen ws, log := s.log ++ ws,
            sent := if msg.isEmpty then s.sent else s.sent ++ [msg] }
 
+/-- the keep-alive timer keeps firing while DISCONNECTING: pings are emitted even after `disconnect()` -/
 def Sender.ping (s : Sender) : Sender :=
-  if s.closing then s else
   { s with nextId := seqNext s.nextId, log := s.log ++ [⟨s.nextId, .ping, []⟩] }
 
 def Sender.disconnect (s : Sender) : Sender :=
